@@ -422,6 +422,9 @@ O6_EXTRA = [
     ["name s3", "version 1.0", "", 'str a = "2,3"', 'str b = "include"', 'str c = "1.5,2.5"', "Gate(a, b, %(i)s) | %(m)s", 'Gate(%(f)s, key=c) | [%(m)s, %(m)s]'],
     ["name s4", "version 1.0", "", "float array A =", "    %(f)s, %(f)s", "    %(f)s, %(f)s", 'Gate(A, "0,1") | %(m)s', "for str s in [\"1,2\", \"a#b\"]", '    Gate(s, k="7,8") | %(m)s'],
     ["name s5", "version 1.0", "", 'Gate("it\'s", "a | b", "(1,2)") | %(m)s', "Dgate(%(f)s ,%(f)s) | %(m)s", "MZgate(%(f)s, %(f)s) | [%(m)s ,%(m)s]"],
+    # several features in one place: template parameters in later rows of a multi-row array, the array indexed by a loop variable
+    ["name s6", "version 1.0", "", "float array A =", "    %(f)s, %(f)s", "    {p}, %(f)s", "    %(f)s, {q}", "Gate(A, k={p}) | %(m)s", "for int i in [0, 1]", "    Rgate(A[i], {q}) | i"],
+    ["name s7", "version 1.0", "type tdm (copies=%(i)s)", "", "int array p0 =", "    %(i)s, %(i)s", "complex array W[2, 2] =", "    {w}", "float array B =", "    %(f)s", "    {b}", "    %(f)s", "Gate(p0, W, k=B) | [%(m)s, %(m)s]"],
 ]
 
 
